@@ -1,18 +1,57 @@
 (* C04 - Encoding a value and decoding the result returns the same value.
    Statements only; every proof is `exact <lemma>`.
 
-   STATUS: partial. Proved for all values (symbolically, no sweep): the leaf
-   laws - every fixed-width integer type, BOOLEAN, NULL - and that values kept
-   as their content octets (Integer, Unsigned, OID, BIT STRING, primitive
-   OCTET STRING) re-encode to the octets they were decoded from (C05 file);
-   that a written TLV is read back by the header routines (tag, length:
-   C12_read_back, C13_read_back, C02_value_step) and that encoder trees write
-   what they announce (C06). NOT proved: the composition theorem over all
-   schemas (decode_s s (write (encode_s s v)) = v by induction on the schema);
-   it is decided by c04.roundtrip on random typed records through the real
-   combinators, against the extracted model and a model-free oracle. *)
+   Proved for all values, all encoder trees, all modes:
+     - structure: every structural encoder tree (primitives, constructed /
+       sequence / set / explicit tagging, tuples and iterators, Option, Choice,
+       octet and bit slices) writes a string of the X.690 grammar whose tree is
+       the tree that was encoded (C04_encoders_write_the_grammar), hence the
+       generic reader returns exactly that tree and consumes exactly the
+       octets written (C04_encode_then_read);
+     - typed fields: a well-formed primitive value read through ANY
+       window-isolated typed leaf reader yields the leaf's decode of its
+       content, at any position and under any limit (C04_typed_field_read);
+       all typed leaf readers are window-isolated (C04_leaf_readers_window);
+       instance: a fixed-width INTEGER field written with any tag reads back
+       as the value (C04_integer_field);
+     - leaves: every fixed-width integer type, BOOLEAN, NULL round-trip.
+   PARTIAL: a single theorem quantified over a schema datatype (records of
+   records of typed fields, OPTIONAL/CHOICE at the typed level) is not stated;
+   records are covered field by field by the theorems above, and as a whole
+   by c04.roundtrip (random typed records through the real combinators).
+   Captured / OctetString / wrapped encoders are outside `structural`. *)
 Require Import BV.Model.Base BV.Model.SrcB BV.Model.Twos BV.Model.Int.
-Require Import BV.Proofs.IntP BV.Proofs.IntEncP.
+Require Import BV.Model.Length BV.Model.Tag BV.Model.Content BV.Model.Encode BV.Model.Prog.
+Require Import BV.Proofs.SrcBP BV.Proofs.IntP BV.Proofs.IntEncP BV.Proofs.WinP BV.Proofs.GrammarP BV.Proofs.EncGrammarP BV.Proofs.TypedP.
+
+Theorem C04_encoders_write_the_grammar : forall e m d,
+  structural e -> enc_write m e = Ok d -> encs m (tlvs_of e) d.
+Proof. exact encoder_in_grammar. Qed.
+
+Theorem C04_encode_then_read : forall e m d,
+  structural e -> enc_write m e = Ok d -> octets_ok d = true ->
+  decode_src m (read_all (S (length d))) (pure_src d None) = (Ok (tlvs_of e), pure_src [] None).
+Proof. exact encode_then_read. Qed.
+
+Theorem C04_typed_field_read : forall T (op : mode -> M T) m t c lw cc rest l,
+  Win (op m) -> legal_tag t -> tag_eqb t END_OF_VALUE = false -> lenoct m (len c) lw ->
+  cmd cc = m -> octets_ok ((tag_write false t ++ lw ++ c) ++ rest) = true ->
+  lim_ge l (len (tag_write false t ++ lw ++ c)) -> may_start cc l ->
+  fst (process_next_value cc None (prim_closure op) (mkSrc ((tag_write false t ++ lw ++ c) ++ rest) l None))
+  = res_map (fun v => (Some v, cc)) (prim_decode (op m) c).
+Proof. exact @typed_field_read. Qed.
+
+Theorem C04_leaf_readers_window : forall ty m, Win (typed_prim ty m).
+Proof. exact Win_typed_prim. Qed.
+
+Theorem C04_integer_field : forall ty v t d cc rest l, ty < 10 ->
+  in_range (ty_signed ty) (ty_width ty) v = true -> tag_ok t ->
+  tlv_write t false (enc_int ty v) = Ok d ->
+  octets_ok (d ++ rest) = true -> lim_ge l (len d) -> may_start cc l ->
+  fst (process_next_value cc None (prim_closure (fun _ => int_accessor ty)) (mkSrc (d ++ rest) l None))
+  = Ok (Some v, cc).
+Proof. exact int_field_roundtrip. Qed.
+
 
 (* all ten integer types, every value of the type's range *)
 Theorem C04_integer_roundtrip : forall ty v, ty < 10 ->
@@ -34,6 +73,11 @@ Proof. exact null_roundtrip. Qed.
 Example C04_ex : enc_int 3 (-129)%Z = [255; 127] /\ enc_int 9 (2^64)%Z = [1;0;0;0;0;0;0;0;0].
 Proof. split; vm_compute; reflexivity. Qed.
 
+Print Assumptions C04_encoders_write_the_grammar.
+Print Assumptions C04_encode_then_read.
+Print Assumptions C04_typed_field_read.
+Print Assumptions C04_leaf_readers_window.
+Print Assumptions C04_integer_field.
 Print Assumptions C04_integer_roundtrip.
 Print Assumptions C04_integer_encoding_minimal.
 Print Assumptions C04_boolean_roundtrip.
